@@ -420,6 +420,19 @@ def case_message(rec, hi, ii, bb, br):
             rec.violation(f'parse-value:{"own" if rc is None else "alt"}:{d}', f'{what}: parsing the {name} encoding gives another message ({d}: {str(got2[("info", "init", "body").index(d)])[:200]} vs '
                           f'{str(want[("info", "init", "body").index(d)])[:200]})', 'case_message', args)
             rec.outcome('parse differs')
+            continue
+        # (5) a parsed message IS a message: serialising it must not fail either, and must give the same logical message
+        try:
+            rec.trans()
+            again, _ = lm_ref(from_lib(back.serialize()))
+            rec.trace()
+            rec.covered('reserialize-parsed')
+        except Exception as e:
+            rec.violation(f'reserialize-raises:{"own" if rc is None else "alt"}', f'{what}: the message returned by MessageAny.deserialize ({name} encoding) cannot be serialised / decoded again: {exc_name(e)}: {e}', 'case_message', args)
+            rec.outcome('reserialize raised')
+            continue
+        if again != want:
+            rec.violation(f'reserialize-value:{"own" if rc is None else "alt"}', f'{what}: the message returned by MessageAny.deserialize ({name} encoding) serialises to another message', 'case_message', args)
     rec.outcome('ok')
 
 
@@ -492,6 +505,14 @@ def case_wrappers(rec):
             back = back_fn(sl)
             if not same(back) or sl.remaining_bits or sl.remaining_refs:
                 rec.violation(f'wrapper:{name}:roundtrip', f'{name} {key}: deserialize(serialize(x)) differs from x or leaves data unread', 'case_wrappers', args)
+                return
+            # the parsed value is a value of the same type: it serialises (does not fail) to the same encoding
+            if hasattr(back, 'serialize'):
+                rec.trans()
+                c2 = back.serialize()
+                rec.covered('reserialize-parsed-wrapper')
+                if (c2.bits.to01(), tuple(r.hash.hex() for r in c2.refs)) != want:
+                    rec.violation(f'wrapper:{name}:reserialize', f'{name} {key}: the value returned by deserialize serialises to another cell', 'case_wrappers', args)
         except Exception as e:
             rec.violation(f'wrapper:{name}:raises', f'{name} {key}: {exc_name(e)}: {e}', 'case_wrappers', args)
 
